@@ -507,11 +507,17 @@ where
         self.pool_size = new_pool_size;
         if is_growing {
             if self.router.is_factory_queueing() {
-                for _ in 0..new_pool_size {
-                    if self.queue.peek().is_none() {
+                // Hand out queued jobs for as long as one can be placed. Sticky routing may send
+                // several queued jobs of one key to the same (new) worker, so the number of jobs
+                // that can be placed is not bounded by the pool size: stopping after `pool_size`
+                // rounds left jobs of other keys queued next to idle workers until some other
+                // job completed.
+                while self.queue.peek().is_some() {
+                    let backlog = self.queue.len();
+                    self.try_route_next_active_job(None)?;
+                    if self.queue.len() == backlog {
                         break;
                     }
-                    self.try_route_next_active_job(None)?;
                 }
             } else {
                 // Worker-queued routing only backlogs in the factory while no worker can take a
